@@ -218,7 +218,7 @@ pub fn check_case(ctx: &Ctx, case: &QuoteCase, rep: &mut CaseReport, shells: &[&
 }
 
 fn worker(ctx: &Ctx) {
-    let n = ctx.tier.pick(1500, 60_000);
+    let n = ctx.tier.pick(2500, 60_000);
     let dash: &[&str] = &["/bin/sh"];
     let bash: &[&str] = &["/bin/bash", "--posix"];
     let shells: Vec<&[&str]> = if ctx.tier == Tier::Thorough { vec![dash, bash] } else { vec![dash] };
